@@ -25,9 +25,23 @@ ASSUMPTIONS = ['sweeps are counted by a tick() call placed in a self-referencing
                'for injected exceptions the solver does not know (OverflowError, ArithmeticError, SimAbort) only '
                'prefix values are checked, not the error class']
 
-list_paths = eqncases.list_paths
-simplifiers = eqncases.simplifiers
-valid = eqncases.valid
+def list_paths(case):
+    return [] if case.get('kind') == 'ECON_MISUSE' else eqncases.list_paths(case)
+
+
+def _simp(case):
+    if case.get('kind') == 'ECON_MISUSE':
+        return
+    for f in eqncases.simplifiers:
+        for c in f(case):
+            yield c
+
+
+simplifiers = (_simp,)
+
+
+def valid(case):
+    return True if case.get('kind') == 'ECON_MISUSE' else eqncases.valid(case)
 
 PROFILES = [('cap_small', 3), ('hazard', 5), ('chaos', 5), ('expansive', 3), ('mixed', 2)]
 ABORT_KINDS = ('eval_overflow_abort', 'eval_arith_abort', 'eval_sim_abort')
@@ -36,9 +50,81 @@ BAD_NAMES = sorted(set(['self', 'None', 'k'] + keyword.kwlist + dir(builtins) + 
 BAD_NAMES = [n for n in BAD_NAMES if n.isidentifier() and not n.startswith('__')]
 
 
+ECON_MISUSE = ['dup_country', 'dup_sector', 'dunder_local', 'no_supplier', 'ambiguous_supplier', 'cross_currency_no_ext']
+
+
+def generate_econ_misuse(seed, S):
+    """Ill-formed declarations at the model level: each must be rejected with an error (when declared or by main())
+    before any numbers exist, and a refused market must not have booked anything on its demanders."""
+    from .. import econgen
+    kind = S['faults'].choice(ECON_MISUSE)
+    fam = 'multi_currency' if kind == 'cross_currency_no_ext' else S['swarm'].choice(['closed', 'capitalists', 'closed_fin'])
+    ops, info = econgen.gen_program(seed, family=fam, tight=False, T=2)
+    e = info['economies'][0]
+    main_i = [i for i, o in enumerate(ops) if o['op'] == 'main'][0]
+    pos = S['faults'].randint([i for i, o in enumerate(ops) if o.get('id') == e['good']][0] + 1, main_i)
+    extra = []
+    if kind == 'dup_country':
+        extra = [{'op': 'Country', 'id': 'cdup', 'model': info['model'], 'code': e['names']['code'], 'currency': None}]
+    elif kind == 'dup_sector':
+        extra = [{'op': 'Sector', 'id': 'sdup', 'country': e['country'], 'code': S['faults'].choice([e['names']['HH'], e['names']['GOOD'], e['names']['TF']]), 'has_F': True}]
+    elif kind == 'dunder_local':
+        extra = [{'op': 'AddVariable', 'sector': e['hh'], 'name': S['faults'].choice(['BAD__NAME', 'X__', '__Y']), 'eqn': '1.0'}]
+    elif kind == 'no_supplier':
+        extra = [{'op': 'Market', 'id': 'mx', 'country': e['country'], 'code': 'XTRA'},
+                 {'op': 'AddVariable', 'sector': e['hh'], 'name': 'DEM_XTRA', 'eqn': '1.5'}]
+    elif kind == 'ambiguous_supplier':
+        extra = [{'op': 'Market', 'id': 'mx', 'country': e['country'], 'code': 'XTRA'},
+                 {'op': 'AddVariable', 'sector': e['hh'], 'name': 'DEM_XTRA', 'eqn': '1.5'},
+                 {'op': 'AddVariable', 'sector': e['bus'], 'name': 'SUP_XTRA', 'eqn': ''},
+                 {'op': 'AddVariable', 'sector': e['gov'], 'name': 'SUP_XTRA', 'eqn': ''}]
+    elif kind == 'cross_currency_no_ext':
+        ext = [o['id'] for o in ops if o['op'] == 'ExternalSector']
+        xr = [o['id'] for o in ops if o['op'] == 'GetSector' and o['country'] in ext]
+        ops = [o for o in ops if o['op'] != 'ExternalSector' and o.get('id') not in xr and o.get('sector') not in xr
+               and o.get('gold') not in xr and o['op'] != 'SetGoldPurchases']
+        if not any(o['op'] == 'RegisterCashFlow' for o in ops):
+            kind = 'dunder_local'
+            extra = [{'op': 'AddVariable', 'sector': e['hh'], 'name': 'BAD__NAME', 'eqn': '1.0'}]
+        main_i = [i for i, o in enumerate(ops) if o['op'] == 'main'][0]
+        pos = main_i
+    ops = ops[0:pos] + extra + ops[pos:]
+    return {'kind': 'ECON_MISUSE', 'profile': 'econ_misuse', 'ops': ops, 'expect': {'misuse': kind, 'demander': e['hh']},
+            'block': {'eqs': [], 'lags': [], 'ics': [], 'exo': [], 'maxtime': 2, 'err_tol': None}, 'knobs': {}, 'drive': 'mono',
+            'faults': [], 'meta': {}}
+
+
+def execute_econ_misuse(case):
+    from .. import econ
+    sess = econ.run_program(case['ops'])
+    viol = []
+    kind = case['expect']['misuse']
+    stats = {'runs': 1, 'profile': {'econ_misuse': 1}, 'probes': {'econ_misuse_' + kind: 1}, 'outcome': {}}
+    mh = [o['model'] for o in case['ops'] if o['op'] == 'main'][0]
+    out, msg = econ.model_outcome(sess, mh)
+    rejected_at = 'declaration' if sess.errors and sess.errors[0][1]['op'] != 'main' else ('main' if out != 'ok' else None)
+    stats['misuse_rejected_with'] = {(sess.errors[0][2] if sess.errors else out): 1}
+    if rejected_at is None:
+        viol.append(core.violation(ID, 'misuse-accepted', 'misuse-accepted:' + kind, misuse=kind))
+    else:
+        ts = econ.series_of(sess, mh) if mh in sess.H else {}
+        if rejected_at == 'main' and any(len(v) > 0 for v in ts.values()):
+            viol.append(core.violation(ID, 'misuse-left-numbers', 'misuse-left-numbers:' + kind, misuse=kind, series=sorted(ts)[0:4]))
+        if kind in ('no_supplier', 'ambiguous_supplier') and not viol and case['expect']['demander'] in sess.H:
+            # the refused market has not booked anything on its would-be demanders
+            frhs = sess.H[case['expect']['demander']].EquationBlock['F'].RHS()
+            if 'DEM_XTRA' in econ.names_in_rhs(frhs):
+                viol.append(core.violation(ID, 'refused-market-half-applied', 'refused-market-half-applied:' + kind,
+                                           demander_F=frhs[0:160]))
+    return {'violations': viol, 'stats': stats, 'sig': core.digest([kind, [o['op'] for o in case['ops']][0:40]]),
+            'digest': core.digest([(i, n, o) for i, n, o in sess.log]), 'nontrivial': True}
+
+
 def generate(seed, tier):
     S = core.Streams(seed)
     r = S['swarm'].random()
+    if r > 0.97:
+        return generate_econ_misuse(seed, S)
     if r < 0.25:
         # success direction: plain contraction, default cap, tolerance >= 1e-8, no faults
         rng = S['topology']
@@ -112,6 +198,8 @@ def generate(seed, tier):
 
 
 def execute(case):
+    if case.get('kind') == 'ECON_MISUSE':
+        return execute_econ_misuse(case)
     drive = case.get('drive', 'step')
     rec = eqn.run_block(case['block'], case['knobs'], case.get('faults', ()), drive)
     viol = []
